@@ -65,6 +65,7 @@ fn media_history(prop: &str, i: u64, rng: &mut Rng, out: &mut Outcome, dir: &std
     }
     let members = [a, b, c];
     let mut files: Vec<FileCase> = vec![];
+    let mut prev: Vec<(&str, Vec<u8>)> = vec![];
     let n_files = rng.range(1, 3);
     let mut pending_for: BTreeMap<usize, Vec<usize>> = BTreeMap::new(); // receiver -> log indices not yet delivered
     for fi in 0..n_files {
@@ -85,6 +86,15 @@ fn media_history(prop: &str, i: u64, rng: &mut Rng, out: &mut Outcome, dir: &std
             7 => ("video/mp4", rng.vecn(0, 3000)),
             _ => ("application/octet-stream", if rng.chance(20) { vec![] } else { rng.vecn(1, 300) }),
         };
+        // the same content announced again in a later epoch (a picture posted twice, two empty
+        // files): the two uploads share their content hash and must both stay decryptable
+        let (mime, data) = if fi > 0 && !prev.is_empty() && rng.chance(30) {
+            out.count("same_content_announced_again");
+            prev[rng.below(prev.len())].clone()
+        } else {
+            (mime, data)
+        };
+        prev.push((mime, data.clone()));
         let fname: String = match rng.below(4) {
             0 => "photo 1.bin".into(),
             1 => "\u{1F4F7}\u{5199}\u{771f}.dat".into(),
@@ -392,6 +402,7 @@ pub fn run(ctx: &Ctx) -> i32 {
         Floor { what: "non-member decryption attempts", have: out.get("non_member_decryptions"), need: 800 },
         Floor { what: "tamper trials", have: out.get("tamper_trials"), need: 50_000 },
         Floor { what: "receivers that processed the announcing message after later commits", have: out.get("receivers_with_late_announce"), need: 200 },
+        Floor { what: "files whose content had been announced before in another epoch", have: out.get("same_content_announced_again"), need: 40 },
         Floor { what: "MIME families", have: out.sets.get("mime_families").map(|s| s.len()).unwrap_or(0) as u64, need: 8 },
         Floor { what: "group image round trips (v2)", have: out.get("group_image_roundtrips"), need: 60 },
     ];
